@@ -125,6 +125,20 @@ class ConstructPipeline(RewritePattern):
         if trip_count is not None and trip_count < len(stages) - 1:
             return
 
+        # values that differ per iteration: the induction variable and everything the index ops compute.
+        # a stage can only take these as memref operands: they become stage arguments and follow the
+        # iteration of their own stage in the unrolled pipeline. any other use (a scalar operand, a use
+        # inside the body of a stage op) would see the value of a different iteration
+        iteration_values = [op.body.block.args[0], *(res for i_op in index_ops for res in i_op.results)]
+        for stage in stages:
+            for stage_op in stage:
+                for nested in stage_op.walk():
+                    for operand in nested.operands:
+                        if any(operand is val for val in iteration_values) and not (
+                            nested is stage_op and isinstance(operand.type, MemRefType)
+                        ):
+                            return
+
         # at this point, the correct pipeline is detected, now we should create the
         # operations for it
 
